@@ -252,6 +252,17 @@ CHECKS += [
          technique="symbolic execution of metric-tensor tapes/post-processing on polynomial terms vs symbolic state derivatives; z3 QF_NRA"),
 ]
 
+CHECKS += [
+    dict(property_id="C09", category="proof", engine=E1,
+         text="For 63 (operator instance, parameter) pairs - all parametrised registry gates, PauliRot/MultiRZ/PCPhase families, controlled versions (ControlledOp path "
+              "through generator eigenvalues, incl. ctrl(DoubleExcitationPlus/Minus) with sparse generators) and custom operations whose frequencies the library "
+              "derives from unequally spaced generator spectra - the declared set F is read from the REAL qp.gradients.parameter_frequencies and z3 proves that the "
+              "differential operator d/dtheta * prod_{f in F}(d^2/dtheta^2 + f^2) annihilates every product conj(U_ab)*U_cd of symbolic matrix entries, i.e. the true "
+              "spectrum of every expectation value lies in F u {0}, for ALL parameter values.",
+         note=PROOF_NOTE + " Up to 10 distinct symbolic entries per instance. Outside: operators needing expm/numeric eigendecomposition (generic qp.evolve, SpecialUnitary), the tape/QNode-level spectrum transform.",
+         technique="symbolic differentiation of executed gate matrices; z3 QF_NRA proofs that a frequency annihilator vanishes identically"),
+]
+
 _NOT_BUILT = "claimed in DESIGN.md §4 but its solver-based check is not built yet in this tree"
 NOT_APPLICABLE_REASONS = {
     "C04": "equality/hash: Python hash() of concrete payloads and tolerance-based allclose relations; no exact relation a solver can decide",
